@@ -237,7 +237,9 @@ class Analyzer(object):
             ws.sort(key=lambda w: (w[1].lineno, w[1].col_offset))
             for i, (l, node, lk, kind, val) in enumerate(ws):
                 ok, why = False, kind
-                if lk:
+                if kind == 'memo keyed on every parameter':
+                    ok, why = True, kind
+                elif lk:
                     ok, why = True, 'inside a lock region'
                 elif val is not None and i == len(ws) - 1 and self._complete_value(val, fresh, fi, node, loc):
                     ok, why = True, 'publish-after-complete'
@@ -266,9 +268,44 @@ class Analyzer(object):
                         writes.append((('self', fi.cls.__name__ if fi.cls else '?', getattr(t, 'attr', '[]')), node, lk,
                                        'stores %s on a receiver that is a module-level (shared) instance' % what, val if isinstance(t, ast.Attribute) and t.value is base else None))
                 elif nm in declared_global or is_module_obj(nm):
-                    writes.append((('global', fi.func.__module__, nm), node, lk, 'stores an %s of module-level %s' % (what, nm), None))
+                    if isinstance(t, ast.Subscript) and t.value is base and self._complete_key_memo(fi, t, node):
+                        # result memo keyed on EVERY parameter, unmodified: the answer still depends on the arguments only,
+                        # and a single item store of a finished value is atomic
+                        writes.append((('global', fi.func.__module__, nm), node, lk, 'memo keyed on every parameter', None))
+                    else:
+                        writes.append((('global', fi.func.__module__, nm), node, lk, 'stores an %s of module-level %s' % (what, nm), None))
                 elif nm in shared_params:
                     writes.append((shared_params[nm], node, lk, 'stores an %s of its argument %s (bound to a module-level object by a caller)' % (what, nm), None))
+
+    def _complete_key_memo(self, fi, t, node):
+        """`G[key] = value` where key is (a local bound once to) a tuple of plain parameter names covering every parameter"""
+        key = t.slice
+        if isinstance(key, ast.Name):
+            binds = [n for n in ast.walk(fi.tree) if isinstance(n, ast.Assign) and len(n.targets) == 1 and isinstance(n.targets[0], ast.Name)
+                     and n.targets[0].id == key.id]
+            if len(binds) != 1:
+                return False
+            key = binds[0].value
+        if isinstance(key, ast.Name):
+            elts = [key]
+        elif isinstance(key, ast.Tuple):
+            elts = key.elts
+        else:
+            return False
+        if not all(isinstance(e, ast.Name) for e in elts):
+            return False
+        params = [p for p in fi.params]
+        if not params or set(params) - set(e.id for e in elts):
+            return False
+        # the parameters must not be re-bound before the key is built (the key must hold the caller's own arguments)
+        for n in ast.walk(fi.tree):
+            if isinstance(n, (ast.Assign, ast.AugAssign)) and getattr(n, 'lineno', 0) <= node.lineno:
+                tg = n.targets if isinstance(n, ast.Assign) else [n.target]
+                for x in tg:
+                    for nm_ in ast.walk(x):
+                        if isinstance(nm_, ast.Name) and nm_.id in params and n.lineno < (key.lineno if hasattr(key, 'lineno') else node.lineno):
+                            return False
+        return True
 
     def _complete_value(self, val, fresh, fi, node, loc):
         """is the stored value an object completely built in this call and not touched afterwards?"""
